@@ -8,7 +8,7 @@
    parameters; hyper-parameters are arbitrary rationals; histories are arbitrary lists of events
    Backward / ZeroGrad / Step / Freeze i / Unfreeze i.  Since the history is arbitrary the equations hold after
    every prefix, i.e. for the whole trajectory. *)
-From Coq Require Import List Bool Arith QArith Reals.
+From Coq Require Import List Bool Arith QArith Reals String.
 Import ListNotations.
 From SG Require Import State.ArrOps State.ArrOpsR Gen.GenOptim State.Optim State.OptimSpec Proofs.OptimProofs.
 
@@ -91,6 +91,22 @@ Theorem only_given_params_touched : forall (O : arr_ops) St pstep (s : ost O St)
 Proof. exact not_given_untouched. Qed.
 Goal True. idtac "ASSUMPTIONS only_given_params_touched". Abort.
 Print Assumptions only_given_params_touched.
+
+(* The optimizer owns exactly the tensors it was given, in their order, after any history, whatever their requires_grad
+   flag or gradient at construction time (a parameter handed over while frozen is updated once it is unfrozen — this is
+   what the refinement theorems use).  On the code side: Optimizer.__init__ stores the list it receives
+   (`self.parameters = parameters`, generated constant) and step()/zero_grad() iterate `self.parameters`. *)
+Theorem optimizer_owns_given : forall (O : arr_ops) St pstep sinit (params : list (V O * bool * bool)) hist,
+  map given (ps (run O St pstep (init O St sinit params) hist)) = map (fun x => snd x) params.
+Proof. exact owns_given. Qed.
+Goal True. idtac "ASSUMPTIONS optimizer_owns_given". Abort.
+Print Assumptions optimizer_owns_given.
+
+Theorem optimizer_stores_the_given_list :
+  optimizer_parameters_source = "parameters"%string /\ optimizer_zero_grad_iterates = "self.parameters"%string.
+Proof. split; reflexivity. Qed.
+Goal True. idtac "ASSUMPTIONS optimizer_stores_the_given_list". Abort.
+Print Assumptions optimizer_stores_the_given_list.
 
 (* Updates are in place: in the three loop bodies the only writes to the parameter are `p.data -= e` / `p.data += e`
    (NumPy in-place operators keep the array object, its shape and its dtype); no other attribute of p is assigned.
